@@ -232,9 +232,10 @@ def _faces_through(fixed, n, first_nonneg, upper):
     return a
 
 
-def make_mesh(src, grid, uniform=False):
+def make_mesh(src, grid, uniform=False, facescale=None):
     """mesh of class `grid` satisfying well_formed: symbolic from the spec (contract), concrete via the real
-    constructor from the same face arrays"""
+    constructor from the same face arrays.  facescale: per-axis factor applied to the face positions (a second mesh
+    in other units over the same face arrays)"""
     info = GRIDS[grid]
     nd = info['nd']
     cls = getattr(pf, grid)
@@ -251,7 +252,10 @@ def make_mesh(src, grid, uniform=False):
             if grid == 'SphericalGrid3D' and a == 2:
                 upper = 6
             increasing_faces(src, name, src.size(a), first_nonneg=radial, upper=upper)
-            faces.append(src.values[name].astype(float))
+            fa = src.values[name].astype(float)
+            if facescale is not None:
+                fa = fa * float(facescale[a])
+            faces.append(fa)
         return cls(*faces)
     N = [src.size(a) for a in range(nd)]
     np_ = NP
@@ -261,6 +265,8 @@ def make_mesh(src, grid, uniform=False):
         if a < nd:
             n = N[a]
             f = src.arr('f' + AX[a], (n + 1,))
+            if facescale is not None:
+                f = f * facescale[a]
             fsnap = f.snap()
             c = SymNDArray.from_fn((n,), (lambda idx, fsnap=fsnap: (fsnap((idx[0],)) + fsnap((I(idx[0]) + 1,))) * R.const(Fraction(1, 2))),
                                    'real', origin='mesh')
